@@ -17,12 +17,13 @@ use std::collections::HashMap;
 use std::io::Cursor;
 use std::sync::Arc;
 
-/// KNOWN-FINDING candidate (arrow-json/src/reader/tape.rs char_from_surrogate_pair): the pair is combined as
+/// FIXED in /repo c21c3ff (finding F26; the flag stays false so the class is generated and compared).  Was:
+/// (arrow-json/src/reader/tape.rs char_from_surrogate_pair) the pair is combined as
 /// `((high - 0xD800) << 10) | ((low - 0xDC00) + 0x1_0000)`; when bit 6 of (high - 0xD800) is set the `|`
 /// swallows the 0x1_0000 offset and the code point comes out 0x10000 too small (U+20000 "𠀀" is
 /// read as U+10000).  Code points U+20000..=U+2FFFF, U+40000..=U+4FFFF, ... written as \u escapes are
 /// therefore excluded from the generators while this flag is true.
-const KF_SURROGATE_BIT16: bool = true;
+const KF_SURROGATE_BIT16: bool = false;
 /// KNOWN-FINDING candidate (arrow-avro/src/reader/mod.rs Decoder::decode): when a record body straddles two
 /// decode() calls the first attempt fails with EOF *after* it has already appended the values of the fields /
 /// array items decoded so far; the retry decodes the row again from its start, so those values are duplicated
